@@ -857,6 +857,82 @@ example :
      normInf (fun x y => if x < y then y else x) (fun z => if z < 0 then -z else z) f) = (7, 25, 4) := by
   decide +kernel
 
+/-! ### products over sub-domains, scalar variants -/
+
+/-- `prod(spaces)` is the product over each index fibre, and the fibre products multiply up to the product over the
+    whole array for every mask (Fubini for products) -/
+theorem prod_partial_total [CommRing K] (f g : Fld K) (sp : Spaces) (h : fprod f sp = .ok g) :
+    ∃ l, parseSpaces sp f.subs.length = .ok l ∧
+      (∀ o, g.val o = prodOver (allIdx (sel true (maskOf f.subs.length l) f.sizes))
+                        (fun c => f.val (merge (maskOf f.subs.length l) o c))) ∧
+      (∀ mask : List Bool, mask.length = f.sizes.length →
+        prodOver (allIdx (sel false mask f.sizes)) (contractProd mask f.sizes f.val) = sProd f) := by
+  unfold fprod at h
+  cases hp : parseSpaces sp f.subs.length with
+  | error e => simp only [hp] at h; cases h
+  | ok l =>
+    simp only [hp, Except.ok.injEq] at h
+    subst h
+    exact ⟨l, rfl, fun _ => rfl, fun mask hm => contractProd_total mask f.sizes f.val hm⟩
+
+/-- the scalar variants: `s_sum` is `sum()` over all sub-domains, `s_integrate` is `integrate()`, `s_mean` is
+    `s_integrate / total_volume` and therefore `mean()` — entry `[]` (any output index) of the corresponding Field -/
+theorem scalar_variants [Field K] [DecidableEq K] (f : Fld K) (o : Idx) :
+    (∃ g, fsum f .none = .ok g ∧ g.val o = sSum f) ∧
+    (∀ v, sIntegrate f = .ok v → ∃ g, integrate f .none = .ok g ∧ g.val o = v) ∧
+    (∀ v m V, sMean f = .ok v → mean f .none = .ok m → totalVolume f.subs .none = .ok V →
+      (∀ s ∈ f.subs, VolConsistent s) → V ≠ 0 → m.val o = v) := by
+  have hmask : maskOf f.subs.length (List.range f.subs.length) = List.replicate f.sizes.length true := by
+    rw [maskOf_range]; simp [Fld.sizes]
+  have hsum : ∀ (g : Fld K), g.subs = f.subs →
+      contract (maskOf f.subs.length (List.range f.subs.length)) g.sizes g.val o = sSum g := by
+    intro g hg
+    have : g.sizes = f.sizes := by simp [Fld.sizes, hg]
+    rw [hmask, ← this, contract_all]; rfl
+  have hint : ∀ v, sIntegrate f = .ok v → ∃ g, integrate f .none = .ok g ∧ g.val o = v := by
+    intro v hv
+    unfold sIntegrate at hv
+    unfold integrate
+    cases hsw : scalarWeight f.subs .none with
+    | error e => simp only [hsw] at hv; cases hv
+    | ok r =>
+      cases r with
+      | some swgt =>
+        simp only [hsw, Except.ok.injEq] at hv ⊢
+        refine ⟨_, rfl, ?_⟩
+        simp only [fsum, parseSpaces, smulFloat, contractFld]
+        rw [hsum f rfl, hv]
+      | none =>
+        simp only [hsw] at hv ⊢
+        cases hw : weight f 1 .none with
+        | error e => simp only [hw] at hv; cases hv
+        | ok tmp =>
+          simp only [hw, Except.ok.injEq] at hv ⊢
+          obtain ⟨l, hp, hsubs, _, _⟩ := weight_val f tmp 1 .none hw
+          refine ⟨_, rfl, ?_⟩
+          simp only [fsum, parseSpaces, contractFld, hsubs]
+          rw [hsum tmp hsubs, hv]
+  refine ⟨⟨_, rfl, ?_⟩, hint, ?_⟩
+  · simp only [contractFld]
+    exact hsum f rfl
+  · intro v m V hv hm hV hvc hV0
+    unfold sMean at hv
+    cases hi : sIntegrate f with
+    | error e => simp only [hi] at hv; cases hv
+    | ok s =>
+      simp only [hi, hV, Except.ok.injEq] at hv
+      obtain ⟨g, hg, hgv⟩ := hint s hi
+      rw [mean_eq_integrate_div_volume f m g .none V hm hg hV hvc hV0 o, hgv, hv]
+
+
+example :
+    let f : Fld Rat := ⟨0, [⟨[2], .vector #[1/2, 2], none⟩, ⟨[2], .scalar (1/2), none⟩], DT.float,
+      fun i => (2 * i.headD 0 + i.tail.headD 0 + 1 : Nat)⟩
+    (sSum f, sProd f, (match sIntegrate f with | .ok v => v | .error _ => 0), (match sMean f with | .ok v => v | .error _ => 0),
+     (match fprod f (.scalar 1) with | .ok g => [g.val [0], g.val [1]] | .error _ => []))
+      = (10, 24, 31/4, 31/10, [2, 12]) := by
+  decide +kernel
+
 /-! ### the theorems apply to what the driver executes
   `CRat` (exact complex rationals) with the core instances of Model/Field.lean is a field (Lemmas/FieldCRat.lean) and
   `CRat.conj` a ring involution; below the Mathlib instance is switched off, so `weight`, `integrate`, … are
@@ -933,6 +1009,21 @@ theorem pointwise_driver (o : BinOp) (rev : Bool) (f g r : Fld CRat) (a b : CRat
   obtain ⟨h1, _, h3, h4⟩ := (@pointwise_binop_elementwise CRat CRat.instField _ CRat.elemOps o rev f g).2 r h
   refine ⟨⟨h1, h3, h4⟩, ?_, rfl, rfl⟩
   simp [CRat.elemOps, CRat.lt]
+
+theorem multifield_vdot_driver (a b : MFld CRat) (v : CRat) (h : msVdot CRat.conj a b = .ok v) :
+    b.dom = a.dom ∧ v = mvdVal CRat.conj a b := by
+  obtain ⟨h1, _, h3⟩ := (@multifield_vdot CRat CRat.instField.toCommRing CRat.conj a b).2 v h
+  exact ⟨h1, h3⟩
+
+theorem all_any_size_driver (f : Fld CRat) (a : MFld CRat) :
+    (sAll f = true ↔ ∀ i ∈ allIdx f.sizes, f.val i ≠ 0) ∧ (msAny a = true ↔ ∃ z ∈ mentries a, z ≠ 0) ∧
+    msize a = (mentries a).length := by
+  obtain ⟨h1, _, _, _, _, h6, h7⟩ := @all_any_size_spec CRat CRat.instField _ f a [] []
+  exact ⟨h1, h6, h7⟩
+
+theorem scalar_variants_driver (f : Fld CRat) (v : CRat) (h : sIntegrate f = .ok v) :
+    ∃ g, integrate f .none = .ok g ∧ g.val [] = v :=
+  (@scalar_variants CRat CRat.instField _ f []).2.1 v h
 
 end Driver
 
